@@ -7,7 +7,7 @@ COQ_ROOTS = ['Props/C02.v', 'GenProps/Framing_consts.v', 'GenProps/Writer_consts
 RULE = ('A case is (base, message list, readiness answers, transport answer script). Messages from a pool with ASCII, '
         '2/3/4-octet characters (character count != octet count), framing look-alikes ("\\n#5\\n", "\\n##\\n", "]]>"), '
         'long and empty ones; scripts: all-1-octet writes, random short writes, counts larger than what is left, '
-        '0 / -1 / exception at EVERY write-call index of short queues; readiness False runs. The real Session.run loop runs in its '
+        '0 / -1 / None (no count at all) / exception at EVERY write-call index of short queues; readiness False runs. The real Session.run loop runs in its '
         'thread over an in-memory transport. Concurrent cases: 2-4 real submitter threads calling Session.send while the worker '
         'writes under random short writes; put order observed at the queue. thorough: every composition of short frames '
         'into accepted counts. Peer cases (quick 5 tls + 5 ssh + 2 unix, thorough 60 + 60 + 20): the REAL transports - TLSSession.connect to an '
@@ -16,8 +16,14 @@ RULE = ('A case is (base, message list, readiness answers, transport answer scri
         '40-400 kB while the scripted server starts reading 0-50 ms late (real short writes: paramiko accepts at most one packet per '
         'send); the octets the server received are decoded by the strict receivers; the counts returned by the real _transport_write '
         'are recorded in a subclass (resubmission of the unsent tail, accepted == received). A failing peer case is re-executed 3 times. '
+        'Stalled peers (quick 3 unix + 2 tls + 1 ssh, thorough 14 + 8 + 4): the session is opened with a timeout of 0.3-0.5 s that stays on its socket '
+        '(the real UnixSocketSession.connect(path, timeout) against a listening socket, TLSSession.connect(timeout)); the server reads NOTHING for 2.5 timeouts '
+        'while 2-3 messages of 0.6-1.4 MB (Unix), 3 of 2.6-3.4 MB (TLS, loopback TCP buffers ~3 MB), 2 of 0.2-0.5 MB (SSH, no timeout on the channel) are '
+        'submitted 0-200 ms apart, in half of the cases after small ones; then it reads all that is still to be had; what it received must be a prefix of the '
+        'frames in order (strict receiver + the frame layout of the property text) and anything short of everything must have been answered with an error, '
+        'the end of the session and no further write call (write calls that raised are recorded too; only an int in 1..len counts as progress). '
         'Scheduled cases (kind wsched): the real Session.send callers (1-4 threads), the real Session.run and a thread assigning _base run under the '
-        'deterministic scheduler of tools/harness/sched.py with scripted write answers / readiness answers; a case is (spec, decision list); 10 scenarios '
+        'deterministic scheduler of tools/harness/sched.py with scripted write answers / readiness answers; a case is (spec, decision list); 11 scenarios '
         'enumerated for 1 pre-emption completely and for <= 2 (thorough <= 3) pre-emptions up to a cap, + 500 (thorough 8000) random specs and schedules; '
         'every effect trace is replayed label by label on the extracted WriterSched.wstep and an independent strict receiver reads the accepted octets. '
         'distinct = distinct case; non-trivial = at least one non-empty message.')
@@ -30,7 +36,9 @@ TRUSTED = ['modelled, not verified: queue.Queue, threading, CPython bytes format
            'scheduled cases: tools/harness/sched.py, wr_sched.py, wr_check.py (scheduler, logging fields, scripted transport, effect log -> label mapping); '
            'the queue is sched.SQueue (atomic put/get/empty) there, queue.Queue in the free-running thread cases',
            'peer cases: tools/harness/c01_peers.py (scripted TLS/SSH/Unix servers, recording session subclasses), c12_peers.py (certificates, host key); '
-           'OpenSSL, paramiko and the loopback stack are peers, not verified; wall-clock bound 10 s per connection']
+           'OpenSSL, paramiko and the loopback stack are peers, not verified; wall-clock bound 10 s per connection',
+           'stalled peers: the kernel buffers of a Unix socket / loopback TCP are smaller than what the case queues (measured ~219 kB / ~3 MB; '
+           'a case in which no write was refused is counted as "everything delivered" in the distribution peer_stalled, not as a refusal)']
 
 BIG = 20000
 CHUNK_MAX = 4294967295
@@ -66,6 +74,44 @@ def strict_decode10(b):
 
 def strict_decode(base, b):
     return strict_decode11(b) if base == 1 else strict_decode10(b)
+
+def rfc_frame(base, mb):
+    """The frame the property text prescribes for one message (oracle side, written from RFC 4742 / RFC 6242 and the property
+    sentence 'chunk size = octet count of the UTF-8 payload'): 1.0 = payload + ']]>]]>'; 1.1 = ONE chunk LF '#' size LF payload,
+    then LF '##' LF."""
+    if base == 1:
+        return b'\n#' + str(len(mb)).encode('ascii') + b'\n' + mb + b'\n##\n'
+    return mb + b']]>]]>'
+
+def strict_prefix(base, b):
+    """Strict receiver on a stream that may have been cut: (messages of the complete frames, the octets after the last complete frame)."""
+    msgs, i = [], 0
+    if base != 1:
+        while True:
+            k = b.find(b']]>]]>', i)
+            if k < 0: return msgs, b[i:]
+            msgs.append(b[i:k]); i = k + 6
+    while i < len(b):
+        j, chunks = i, []
+        while True:
+            if b[j:j + 4] == b'\n##\n' and chunks:
+                j += 4; break
+            m = _hdr.match(b, j)
+            if not m or int(m.group(1)) > CHUNK_MAX or m.end() + int(m.group(1)) > len(b): return msgs, b[i:]
+            n = int(m.group(1))
+            chunks.append(b[m.end():m.end() + n]); j = m.end() + n
+        msgs.append(b''.join(chunks)); i = j
+    return msgs, b''
+
+def expand_msg(m):
+    """a message of a case: a str, or ['rep', head, unit, n, tail] = head + unit * n + tail (large messages stay small in case files)"""
+    if isinstance(m, (list, tuple)):
+        _, head, unit, n, tail = m
+        return head + unit * n + tail
+    return m
+
+def case_msgs(case):
+    return [expand_msg(m) for m in (case.get('msgs') or [m for p in case.get('progs', []) for m in p])]
 
 def eom_safe(mb):
     return (mb + b']]>]]>').find(b']]>]]>') == len(mb)
@@ -103,6 +149,8 @@ def canon_err(e, sess):
             try: return ['SessionCloseError', ast.literal_eval(m.group(1)).hex()]
             except Exception: pass
         return ['SessionCloseError', 'text:' + s]
+    if isinstance(e, TypeError):           # `n <= 0` on an answer that is no number (None): the loop's own exception, unsent = what it had offered
+        return ['TypeError', sess.t.writes[-1][0].hex() if sess.t.writes else '']
     if isinstance(e, Boom) or 'scripted transport failure' in str(e):
         return ['TransportExc', sess.t.writes[-1][0].hex() if sess.t.writes else '']
     return [type(e).__name__, str(e)[:80]]
@@ -154,7 +202,7 @@ def run_impl(case, bound=2.0):
 def impl_status(obs):
     if obs['errors']:
         e = obs['errors'][0]
-        kind = {'SessionCloseError': 0, 'TransportExc': 1}.get(e[0], e[0])
+        kind = {'SessionCloseError': 0, 'TransportExc': 1, 'TypeError': 2}.get(e[0], e[0])
         return ['failed', kind, e[1], obs['remaining']]
     if not obs['completed']: return ['stuck', obs['remaining']]
     return ['drained'] if not obs['remaining'] else ['waiting', obs['remaining']]
@@ -165,7 +213,7 @@ def model_call(case):
     ans = []
     for a in case['answers']:
         if a[0] == 'a': ans.append([0, BIG if a[1] is None else a[1]])
-        elif a[0] == 'r': ans.append([0, 0] if a[1] == 0 else [1])
+        elif a[0] == 'r': ans.append([3] if a[1] is None else ([0, 0] if a[1] == 0 else [1]))
         else: ans.append([2])
     ans += [[0, BIG]] * (n + 1)                       # transport default: takes everything
     readys = [1 if r else 0 for r in case['readys']] + [1] * (n + 1)
@@ -218,8 +266,9 @@ def oracle(case, obs):
             if calls and calls[-1][1][0] == 'accept':
                 out.append(('writes continued after the transport refused', 'last call is the refused one', len(calls)))
             e = obs['errors'][0]
-            want = 'TransportExc' if calls[-1][1][0] == 'raise' else 'SessionCloseError'
-            if e[0] != want:
+            # an answer that is no count at all (None) must end the session with an error; the property does not say which
+            want = 'TransportExc' if calls[-1][1][0] == 'raise' else ('SessionCloseError' if calls[-1][1][1] is not None else None)
+            if want is not None and e[0] != want:
                 out.append(('wrong error value', want, e[0]))
             unsent = calls[-1][0]
             if not unsent:
@@ -301,7 +350,7 @@ def failure_cases(base, msgs, step):
     total = sum(py_frame_len(base, m) for m in msgs)
     ncalls = sum(-(-py_frame_len(base, m) // step) for m in msgs)
     for i in range(ncalls):
-        for bad in (('r', 0), ('r', -1), ('x',)):
+        for bad in (('r', 0), ('r', -1), ('r', None), ('x',)):
             yield dict(base=base, msgs=msgs, readys=[], answers=[('a', step)] * i + [bad])
 
 def compositions(n):
@@ -429,7 +478,7 @@ def run_any(ctx, case, mo=None):
     return confirmed(ctx, case, mo)
 
 def report(ctx, case, obs, probs, mism):
-    sg = sig_of(case['base'], case.get('msgs') or [m for p in case.get('progs', []) for m in p])
+    sg = sig_of(case['base'], case_msgs(case))
     if mism:
         ctx.disagree(case, mism[0], mism[1], 'Writer.worker vs Session.run on the same queue/readiness/answers',
                      theorem='C02_wire_prefix/C02_failure/C02_short_writes')
@@ -539,9 +588,35 @@ def gen_peer(rng, transport, force=False):
         case['ssh_window'] = [rng.choice([4096, 5000, 9000, 20000]), rng.choice([4096, 4096, 4200, 6000]) if not force else 4096]
     return case
 
+STALL_SIZES = {'unix': (600000, 1400000, 2, 3), 'tls': (2600000, 3400000, 3, 3), 'ssh': (200000, 500000, 2, 2)}   # octets per large message (min, max), how many (min, max)
+
+def gen_peer_stalled(rng, transport):
+    """A peer that stops reading for longer than the timeout the session's socket carries, while more is queued than the
+    transport buffers hold (Unix socket ~200 kB, loopback TCP ~3-4 MB, an SSH window 2 MB): 2-3 large messages, in half of the
+    cases after one or two small ones (so the refusal comes after a short write), submitted 0-200 ms apart."""
+    base = rng.choice([0, 1])
+    lo, hi, kmin, kmax = STALL_SIZES[transport]
+    msgs = gen_msgs(rng)[:rng.choice([0, 1, 2])]
+    for i in range(rng.randint(kmin, kmax)):
+        unit = rng.choice(['é€x', '<v>0123456789</v>', '\U0001F600', 'q', '中%d-' % i])
+        big = ['rep', '<rpc message-id="%d"><d>' % (100 + i), unit, rng.randint(lo, hi) // len(unit.encode()), '</d></rpc>']
+        msgs.insert(rng.randrange(len(msgs) + 1) if rng.random() < 0.5 else len(msgs), big)
+    if transport == 'ssh':          # paramiko's Channel.send has no timeout: it waits for the window, nothing may be lost
+        tmo, stall = 10000, 400
+    else:
+        tmo = rng.choice([300, 400, 500] if transport == 'unix' else [400, 500])
+        stall = int(tmo * 2.5)
+    return dict(kind='peer', transport=transport, base=base, msgs=msgs, timeout_ms=tmo, stall_ms=stall, gap_ms=rng.choice([0, 0, 50, 200]))
+
+def progress(l, n):
+    """a _transport_write(data) call made progress iff it RETURNED an integer count in 1..len(data)"""
+    return isinstance(n, int) and not isinstance(n, bool) and 0 < n <= l
+
 def oracle_peer(case, obs):
+    if case.get('stall_ms'):
+        return oracle_peer_stalled(case, obs)
     out = []
-    base, mbs = case['base'], [m.encode() for m in case['msgs']]
+    base, mbs = case['base'], [m.encode() for m in case_msgs(case)]
     if obs['open_error']:
         return [('the session could not be opened against the scripted server', None, obs['open_error'])]
     ch = strict_decode10(obs['client_hello'])
@@ -554,15 +629,69 @@ def oracle_peer(case, obs):
         out.append(('strict RFC %s receiver behind the real transport does not get the submitted messages' % ('6242' if base else '4742'),
                     [m.hex()[:200] for m in mbs], None if dec is None else [m.hex()[:200] for m in dec]))
     w = obs.get('writes', [])
-    if any(not (0 < n <= l) for _, l, n in w):
-        out.append(('a write count outside 1..len(data) was treated as progress', 'counts in 1..len', [(l, n) for _, l, n in w if not (0 < n <= l)][:5]))
+    if any(not progress(l, n) for _, l, n in w):
+        out.append(('a write call that raised / returned no count in 1..len(data) was treated as progress', 'counts in 1..len',
+                    [(l, repr(n)) for _, l, n in w if not progress(l, n)][:5]))
     for (_, l1, n1), (_, l2, _) in zip(w, w[1:]):
-        if n1 < l1 and l2 != l1 - n1:
+        if progress(l1, n1) and n1 < l1 and l2 != l1 - n1:
             out.append(('write call does not resubmit the unsent tail', l1 - n1, l2)); break
-    if sum(n for _, _, n in w) != len(obs['wire']):
-        out.append(('octets accepted by the transport != octets received by the peer', sum(n for _, _, n in w), len(obs['wire'])))
+    if sum(n for _, l, n in w if progress(l, n)) != len(obs['wire']):
+        out.append(('octets accepted by the transport != octets received by the peer', sum(n for _, l, n in w if progress(l, n)), len(obs['wire'])))
     if obs.get('queue_left'):
         out.append(('queue not drained within the bound', 0, obs['queue_left']))
+    if obs['worker_alive_after_close']:
+        out.append(('session thread alive after close()', False, True))
+    return out
+
+def oracle_peer_stalled(case, obs):
+    """The property sentence behind a peer that stopped reading: whatever arrived is a prefix of the frames in submission
+    order; what was handed to the session and did not arrive completely was answered with an error (and the end of the
+    session), never with silence."""
+    out = []
+    base = case['base']
+    if obs['open_error']:
+        return [('the session could not be opened against the scripted server', None, obs['open_error'])]
+    mbs = [m.encode() for m in case_msgs(case)][:obs['accepted']]            # the messages send() took
+    wire = obs['wire']
+    ch = strict_decode10(obs['client_hello'])
+    if ch is None or len(ch) != 1 or b'hello' not in ch[0] or obs['client_hello'].startswith(b'\n#'):
+        out.append(('the client <hello> is not exactly one end-of-message frame', 'one RFC 4742 frame holding <hello>', obs['client_hello'][:120].hex()))
+    errs = obs['errors_before_close']
+    got, rest = strict_prefix(base, wire)
+    k = len(got)
+    shape = dict(complete_frames=k, octets_after_them=len(rest), octets_received=len(wire), reading_ended=obs.get('read_end'))
+    nxt = rfc_frame(base, mbs[k]) if k < len(mbs) else b''
+    if got != mbs[:k] or not nxt.startswith(rest) or (rest and len(rest) >= len(nxt)):
+        out.append(('the octets the peer received are not a prefix of the frames of the submitted messages in order (strict RFC %s receiver)' % ('6242' if base else '4742'),
+                    dict(messages=len(mbs), sizes=[len(m) for m in mbs]), dict(shape, first_octets_after=rest[:40].hex(), sizes=[len(m) for m in got])))
+    delivered = k == len(mbs) and not rest
+    w = obs.get('writes', [])
+    refusals = [i for i, (_, l, n) in enumerate(w) if not progress(l, n)]
+    summary = dict(shape, errors=errs, submitted=len(mbs), connected=obs.get('connected_end'), session_thread_alive=obs.get('alive_end'),
+                   write_calls=[(l, n if isinstance(n, (int, str)) else repr(n)) for _, l, n in w][-6:])
+    if not delivered and not errs:
+        out.append(('the transport could accept no more bytes and a message was truncated / dropped without any error (silent loss)',
+                    'all %d frames at the peer, or an error at the listeners' % len(mbs), summary))
+    if refusals and not errs:
+        out.append(('a write call that raised / returned no count in 1..len(data) was not answered with an error', 'error', summary))
+    if refusals and refusals[0] != len(w) - 1:
+        out.append(('writes continued after the transport refused', 'the refused call is the last one', summary))
+    if errs:
+        if not refusals:
+            out.append(('session failed although the transport accepted every write', [], summary))
+        if obs.get('connected_end') or obs.get('alive_end') or obs.get('later_send') != 'TransportError':
+            out.append(('session not failed after the error', 'thread exited, disconnected, later send refused',
+                        [obs.get('alive_end'), obs.get('connected_end'), obs.get('later_send')]))
+    else:
+        if obs.get('queue_left'):
+            out.append(('queue not drained within the bound', 0, obs['queue_left']))
+    for (_, l1, n1), (_, l2, _) in zip(w, w[1:]):
+        if progress(l1, n1) and n1 < l1 and l2 != l1 - n1:
+            out.append(('write call does not resubmit the unsent tail', l1 - n1, l2)); break
+    acc = sum(n for _, l, n in w if progress(l, n))
+    slack = w[refusals[0]][1] if refusals else 0        # a call that raised may have handed part of its data to the transport (TLS records)
+    if not (acc <= len(wire) <= acc + slack) and not (errs and len(wire) <= acc):
+        out.append(('octets received by the peer do not match the counts the transport returned', [acc, acc + slack], len(wire)))
     if obs['worker_alive_after_close']:
         out.append(('session thread alive after close()', False, True))
     return out
@@ -571,13 +700,16 @@ def check_peer(ctx, case):
     from harness import c01_peers as q
     from harness import fakesession_wire as fs
     fs.uninstall()                  # the real transports need the real selectors / TICK in ncclient.transport.session
-    c = dict(case, base=11 if case['base'] == 1 else 10)
+    c = dict(case, base=11 if case['base'] == 1 else 10, msgs=case_msgs(case))
     last = None
     for _ in range(4):              # wall-clock rig: report only what fails every time
         def done(wire, base=case['base'], n=len(case['msgs'])):
             d = strict_decode(base, wire)
             return d is not None and len(d) >= n
-        obs = q.run_outbound(c, done)
+        if case.get('stall_ms'):
+            obs = q.run_outbound_stalled(c, sum(len(rfc_frame(case['base'], m.encode())) for m in c['msgs']))
+        else:
+            obs = q.run_outbound(c, done)
         probs = oracle_peer(case, obs)
         last = (obs, probs, None)
         if not probs: break
@@ -600,6 +732,23 @@ def peers_level(ctx):
             w = obs.get('writes', [])
             ctx.hist('peer_short_writes', 'none' if not any(x < l for _, l, x in w) else ('1-9' if sum(1 for _, l, x in w if x < l) < 10 else '10+'))
             ctx.hist('peer_wire_octets', '<1k' if len(obs['wire']) < 1000 else ('<64k' if len(obs['wire']) < 65536 else '>=64k'))
+            if not probs: ctx.traces += 1
+            report(ctx, case, dict(obs, wire=''), probs, None)
+    # peers that stop reading for longer than the socket timeout while more than the transport buffers is queued
+    per = {'unix': 3, 'tls': 2, 'ssh': 1} if quick else {'unix': 14, 'tls': 8, 'ssh': 4}
+    for transport in ('unix', 'tls', 'ssh'):
+        for k in range(per[transport]):
+            if too_many(ctx): break
+            case = gen_peer_stalled(rng, transport)
+            obs, probs, _ = check_peer(ctx, case)
+            n += 1
+            ctx.count(case, nontrivial=True)
+            ctx.hist('peer_transport', '%s/%s' % (transport, '1.1' if case['base'] else '1.0'))
+            w = obs.get('writes', [])
+            refused = any(not progress(l, x) for _, l, x in w)
+            ctx.hist('peer_stalled', '%s: %s' % (transport, 'open failed' if obs.get('open_error') else
+                     ('write refused (%s), error reported, prefix at the peer' % ','.join(sorted(set(str(x) for _, l, x in w if not progress(l, x)))) if refused and obs['errors_before_close']
+                      else ('everything delivered' if not refused else 'refused write, no error'))))
             if not probs: ctx.traces += 1
             report(ctx, case, dict(obs, wire=''), probs, None)
     dfd, extra = q.settle_resources(res0)
@@ -637,7 +786,7 @@ class _NoModel:
 def reproduce(finding):
     case = finding['witness']
     obs, probs, _ = run_any(_NoModel, case)
-    return bool(probs) and sig_of(case['base'], case['msgs']) == finding.get('sig')
+    return bool(probs) and sig_of(case['base'], case_msgs(case)) == finding.get('sig')
 
 def replay(doc):
     case = doc['case']
